@@ -1,6 +1,7 @@
 import PrysmVerif.Generated.C16
 import PrysmVerif.Lemmas.C16Expose
 import PrysmVerif.Lemmas.C16Bin
+import PrysmVerif.Lemmas.C16Safe
 import Mathlib.Data.Rat.Floor
 /-!
 # C16 — sensor model: DN stay in range; binning and mosaicking conserve signal
@@ -76,6 +77,13 @@ theorem gen_kernels :
     Generated.C16.malvarDivisor = Model.C16.malvarDivisor ∧ Generated.C16.srcKernel = Model.C16.srcKernel := by
   refine ⟨by decide +kernel, by decide +kernel, by decide +kernel, by decide +kernel, by decide +kernel, ?_⟩
   funext s; cases s <;> simp only [Generated.C16.srcKernel, Model.C16.srcKernel] <;> decide +kernel
+
+/-- safe white-balance limiting: the loop step is the modelled running maximum, every colour plane is
+inspected (4 mosaic planes before demosaicking, 3 channels after) and every gain is divided by the ratio -/
+theorem gen_wb_safe {K : Type} [Num K] [LT K] [DecidableLT K] (r mx sat : K) :
+    wbPreSafeStep r mx sat = Model.C16.safeStep r mx sat ∧ wbPostSafeStep r mx sat = Model.C16.safeStep r mx sat ∧
+    wbPreSafePlanes = 4 ∧ wbPostSafePlanes = 3 ∧ wbPreSafeDividesEveryGain = true ∧ wbPostSafeDividesEveryGain = true :=
+  ⟨rfl, rfl, by decide, by decide, by decide, by decide⟩
 
 /-! ## exposure -/
 section expose
@@ -318,6 +326,19 @@ theorem malvar_constant_level (cfa : Cfa) (m n : ℕ) (v : Rat) (ch : Chan) (R C
     rcases hk with rfl | rfl | rfl | rfl <;>
       simp [convolve5, Num.sumTo, kernelAt, Model.C16.kernelGAtRB, Model.C16.kernelRAtGInRB, Model.C16.kernelRAtGInBR,
         Model.C16.kernelRAtBInBB, Model.C16.malvarDivisor, Num.ofInt] <;> ring
+
+/-- safe white balance: after dividing the gains by the generated limiting ratio, a plane scaled with unit
+nominal gain does not exceed its saturation level — for every list of inspected planes `(max, saturation)`;
+and the ratio is exactly 1 (data untouched) when nothing is above saturation -/
+theorem wb_safe_limits {K : Type} [Field K] [LinearOrder K] [IsStrictOrderedRing K] (l : List (K × K)) :
+    (∀ p ∈ l, 0 < p.2 → p.1 / safeRatio wbPostSafeStep l 1 ≤ p.2) ∧
+    (∀ p ∈ l, 0 < p.2 → p.1 / safeRatio wbPreSafeStep l 1 ≤ p.2) ∧
+    ((∀ p ∈ l, p.1 / p.2 ≤ 1) → safeRatio wbPostSafeStep l 1 = 1 ∧ safeRatio wbPreSafeStep l 1 = 1) := by
+  have e1 : (wbPostSafeStep : K → K → K → K) = safeStep := by funext r mx sat; exact (gen_wb_safe r mx sat).2.1
+  have e2 : (wbPreSafeStep : K → K → K → K) = safeStep := by funext r mx sat; exact (gen_wb_safe r mx sat).1
+  rw [e1, e2]
+  exact ⟨fun p hp hs => safe_limits l p hp hs, fun p hp hs => safe_limits l p hp hs,
+    fun h => ⟨safeRatio_eq_one l h, safeRatio_eq_one l h⟩⟩
 
 end bayer
 
